@@ -35,7 +35,7 @@ STUBS = ["get_hash -> uninterpreted function", "PublicKeyEcc/PublicKeyRsa -> stu
          "(the real spsdk x/y/n/e/coordinate_size/export code runs); Certificate -> stub carrying the key; signature "
          "provider -> UF SIGN"]
 MUST_REACH = ["ecc\\..*", "rsa\\..*", "isk\\..*"]
-OPTS = {"quick": {"case_timeout_s": 400}, "thorough": {"case_timeout_s": 2400}}
+OPTS = {"quick": {"case_timeout_s": 900}, "thorough": {"case_timeout_s": 2400}}
 HB = {"secp256r1": 256, "secp384r1": 384, "secp521r1": 512}
 CS = {"secp256r1": 32, "secp384r1": 48, "secp521r1": 66}
 
